@@ -333,12 +333,20 @@ pub fn exec_c17(plan: &C17Plan, st: &mut Stats) -> Option<Violation> {
     None
 }
 
-const MIX_SUB: Mix = Mix { input: [50, 20, 12, 10, 8], max_events: 6, max_decoders: 1, size_classes: [12, 4, 1, 6], source_faults: true };
+const MIX_INHERIT: Mix = Mix { input: [25, 5, 60, 5, 5], max_events: 6, max_decoders: 1, size_classes: [12, 4, 1, 6], source_faults: true, hdr_bias: true };
+const MIX_SUB: Mix = Mix { input: [50, 20, 12, 10, 8], max_events: 6, max_decoders: 1, size_classes: [12, 4, 1, 6], source_faults: true, hdr_bias: false };
 
 pub fn gen_c17(rng: &mut Rng, tier: Tier) -> C17Plan {
     let nthreads = 2 + rng.usize(3);
     let nsub = 1 + rng.usize(3);
-    let subplans: Vec<Session> = (0..nsub).map(|_| gen_session(rng, &MIX_SUB)).collect();
+    // One world in ten is an INHERITANCE world: standard-mode decoders fed PLUSPTYPE
+    // headers that restate the optional part (OPPTYPE, arbitrary mode bits) or rely on
+    // what was carried over (UFEP = 000, often on a decoder that holds no picture yet).
+    // What such a call answers must depend on its own instance's history only, whatever
+    // headers other instances parse in between (process-wide parse state).
+    let inherit = rng.chance(1, 10);
+    let mix = if inherit { &MIX_INHERIT } else { &MIX_SUB };
+    let subplans: Vec<Session> = (0..nsub).map(|_| gen_session(rng, mix)).collect();
     // A "sibling" of sub-plan 0: same sizes, temporal references, picture types,
     // macroblock structure and vectors, but different sample content (other
     // INTRADC values).  Any cache or scratch state keyed by header fields instead
@@ -433,7 +441,7 @@ pub fn gen_c17(rng: &mut Rng, tier: Tier) -> C17Plan {
         })
         .collect();
     C17Plan {
-        note: format!("{nthreads} threads, {} instances ({} sub-plans{}), {} schedule slices (style {style})", instances.len(), subplans.len(), if sibling.is_some() { ", one a content-only sibling of sub-plan 0" } else { "" }, schedule.len()),
+        note: format!("{}{nthreads} threads, {} instances ({} sub-plans{}), {} schedule slices (style {style})", if inherit { "INHERITANCE world (PLUSPTYPE headers with OPPTYPE mode bits / UFEP=000), " } else { "" }, instances.len(), subplans.len(), if sibling.is_some() { ", one a content-only sibling of sub-plan 0" } else { "" }, schedule.len()),
         subplans,
         instances,
         threads,
@@ -446,7 +454,7 @@ impl Property for C17 {
     const ID: &'static str = "C17";
     const LEVEL: &'static str = "exploration";
     const CROSS_PROCESS_RUNS: u64 = 3000;
-    const RULE: &'static str = "seeded worlds of 2-4 caller threads owning 3-8 decoder instances (at least two replicas fed the same history, the others unrelated histories including corrupted inputs and source faults that make their decoder fail), executed under the simulator's baton scheduler: one thread runs at a time, pre-emption points are every source read and every call boundary, the successor comes from the plan's schedule. Oracles: replicas agree; every instance's history digest (every result and every state digest) equals the digest of the same history run alone and sequentially; the same runs executed in two further fresh processes give identical digests (per-process hash seeds, addresses, lazy statics first used from a non-main thread). evaluations = decode calls made under the scheduler. A case is non-trivial if the schedule actually switched threads while decode calls were in flight; distinct by (context-switch sequence hash, thread step lists).";
+    const RULE: &'static str = "seeded worlds of 2-4 caller threads owning 3-8 decoder instances (at least two replicas fed the same history, the others unrelated histories including corrupted inputs and source faults that make their decoder fail; one world in ten is an inheritance world of standard-mode decoders fed PLUSPTYPE headers that restate OPPTYPE with arbitrary mode bits or rely on carried-over context with UFEP=000), executed under the simulator's baton scheduler: one thread runs at a time, pre-emption points are every source read and every call boundary, the successor comes from the plan's schedule. Oracles: replicas agree; every instance's history digest (every result and every state digest) equals the digest of the same history run alone and sequentially; the same runs executed in two further fresh processes give identical digests (per-process hash seeds, addresses, lazy statics first used from a non-main thread). evaluations = decode calls made under the scheduler. A case is non-trivial if the schedule actually switched threads while decode calls were in flight; distinct by (context-switch sequence hash, thread step lists).";
     fn runs(tier: Tier) -> u64 {
         match tier {
             Tier::Quick => 24_000,
@@ -458,6 +466,14 @@ impl Property for C17 {
     }
     fn execute(plan: &C17Plan, st: &mut Stats) -> Option<Violation> {
         st.sample(|| json!({"note": plan.note, "instances": plan.instances, "threads": plan.threads.iter().map(|t| t.len()).collect::<Vec<_>>(), "schedule": plan.schedule.iter().take(12).collect::<Vec<_>>()}));
+        if plan.note.starts_with("INHERITANCE") {
+            st.inc("probe.inheritance_world");
+            let pics = || plan.subplans.iter().flat_map(|s| s.pics.iter()).filter_map(|p| p.spec.as_ref());
+            let n0 = pics().filter(|s| matches!(&s.flavour, crate::spec::Flavour::StdPlus { hdr: Some(h), .. } if h.ufep0)).count();
+            let n1 = pics().filter(|s| matches!(&s.flavour, crate::spec::Flavour::StdPlus { hdr: Some(h), .. } if !h.ufep0 && h.modes != 0)).count();
+            st.add("probe.ufep0_headers_in_inheritance_worlds", n0 as u64);
+            st.add("probe.opptype_headers_with_mode_bits_in_inheritance_worlds", n1 as u64);
+        }
         exec_c17(plan, st)
     }
     fn shrink(plan: &C17Plan) -> Vec<C17Plan> {
@@ -498,7 +514,7 @@ impl Property for C17 {
         ]
     }
     fn probe_names() -> Vec<&'static str> {
-        vec!["replica_pairs_compared", "schedules_with_4_or_more_switches"]
+        vec!["replica_pairs_compared", "schedules_with_4_or_more_switches", "inheritance_world", "ufep0_headers_in_inheritance_worlds", "opptype_headers_with_mode_bits_in_inheritance_worlds"]
     }
 }
 
